@@ -171,7 +171,17 @@ def job_spherical(n):
                 az = z3.Or(*[z3.And(t[2] == ph, v[0] * t[0] == v[1] * t[1]) for t in pk]) if pk else z3.BoolVal(False)
                 res.append(prove('%s/azimuth[%d,%d,%d]' % (tag, i, j, l), hyp, az, 60000, mv, key='C13/spherical/azimuth', tactic=None))
                 tot = tot + rules[0][2][i] * rules[1][2][j] * rules[2][2][l] * r_ * r_ * c[2]
-    res.append(prove('%s/value-weights-r2' % tag, hyp, toR(p.ret) == tot, 120000, mv, key='C13/spherical/jacobian'))
+    # the value is linear in the integrand values F(point_k): coefficient by coefficient (F_k = 1, the others 0) it must be weight product x r^2 - small queries that also yield counter-models quickly
+    apps = [c[2] for c in cs]; k = 0
+    if all(is_sym(a) for a in apps) and len(set(a.get_id() for a in apps)) == len(apps):
+        for i in range(n):
+            for j in range(n):
+                for l in range(n):
+                    sub = [(a, z3.RealVal(1 if t == k else 0)) for t, a in enumerate(apps)]
+                    res.append(prove('%s/jacobian-coefficient[%d,%d,%d]' % (tag, i, j, l), hyp, z3.substitute(toR(p.ret), *sub) == rules[0][2][i] * rules[1][2][j] * rules[2][2][l] * rules[0][1][i] * rules[0][1][i], 60000, mv, key='C13/spherical/jacobian', tactic='nra', sample=(k == 0)))
+                    k += 1
+        res.append(prove('%s/no-constant-term' % tag, hyp, z3.substitute(toR(p.ret), *[(a, z3.RealVal(0)) for a in apps]) == 0, 60000, mv, key='C13/spherical/jacobian', tactic='nra'))
+    else: res.append(prove('%s/value-weights-r2' % tag, hyp, toR(p.ret) == tot, 120000, mv, key='C13/spherical/jacobian'))
     return res
 
 def jobs(ctx):
